@@ -233,6 +233,10 @@ def decide(cfg, tier, seed, problems, fam_results, assumptions_info, obligations
                 # the observation falsifies another property's predicate: that property's own check reports it
                 for t in sf["props"]:
                     other_props[t] = other_props.get(t, 0) + 1
+                    if other_props[t] == 1:
+                        # kept for diagnosis: the first such observation, replayable with specdebug
+                        core.write_replay(f"seen-by-{pid}-{t}", seed, 0, {"kind": "other-property", "property": t, "family": fr["family"],
+                                          "case": sf["case"], "implementation_observation": sf["impl"], "model_observation": sf["model"]})
                 continue
             concrete.append((fr["family"], sf))
     if other_props:
